@@ -419,10 +419,10 @@ def id_lookup_pass(ctx):
     from pyecore.resources import ResourceSet, URI
     from pyecore.resources.json import JsonResource
     types = [(E.EString, ['k1', 'k2', 'k3']), (E.EInt, [12, 7, 300]), (E.ELong, [2 ** 40, 5, 6]), (E.EDouble, [1.5, 2.25, 3.0]),
-             (E.EBoolean, [True])]
+             (E.EBoolean, [True]), (E.EIntegerObject, [0, 12, 7]), (E.EDoubleObject, [0.0, 1.5, 2.5])]      # (falsy ids are ids)
     tmp = tempfile.mkdtemp(prefix='verif_c11_')
     try:
-        for k in range(20 if ctx.quick() else 200):
+        for k in range(28 if ctx.quick() else 280):
             rng = common.sub_rng(ctx.seed, 'C11', 'id-lookup', k)
             t, vals = types[k % len(types)]
             fmt = 'xmi' if (k // len(types)) % 2 == 0 else 'json'
@@ -438,7 +438,7 @@ def id_lookup_pass(ctx):
                 r.metamodel_registry[pk.nsURI] = pk
                 return r
             # (the root has an id of its own where the type offers a value that is not its default, and is referred to by it)
-            rootkey = {'EString': 'k0', 'EInt': 99, 'ELong': 77, 'EDouble': 9.5}.get(t.name)
+            rootkey = {'EString': 'k0', 'EInt': 99, 'ELong': 77, 'EDouble': 9.5, 'EIntegerObject': 99, 'EDoubleObject': 9.5}.get(t.name)
             has_rootkey = rootkey is not None and k % 3 != 2
             root = A(key=rootkey) if has_rootkey else A()
             objs = [A(key=v) for v in vals]
